@@ -115,20 +115,30 @@ def run(ctx):
     fam = ['rsa-sha2-512', 'rsa-sha2-256', 'ssh-rsa']
     for size in ((1024, 2048, 3072) if q else (1024, 2048, 3072, 4096, 1536)):
         for keys in ([fam[0], 'ssh-ed25519'], ['ssh-ed25519'] + fam, fam[:2] + ['ssh-ed25519', 'ecdsa-sha2-nistp256'], ['ssh-ed25519', 'ssh-rsa']):
-            hk_cases.append({'size': size, 'key': keys, 'banner': rng.choice(['SSH-2.0-OpenSSH_8.4', 'SSH-2.0-OpenSSH_9.6', 'SSH-2.0-dropbear_2020.81'])})
+            hk_cases.append({'size': size, 'key': keys, 'ca': None, 'banner': rng.choice(['SSH-2.0-OpenSSH_8.4', 'SSH-2.0-OpenSSH_9.6', 'SSH-2.0-dropbear_2020.81'])})
+    # certificate host keys: what is learnt about the signing CA of one certificate must not colour the keys probed after it
+    RC, EC = 'ssh-rsa-cert-v01@openssh.com', 'ssh-ed25519-cert-v01@openssh.com'
+    for ca in ('ecdsa', 'rsa1024', 'rsa2048', 'ed25519'):
+        for keys in ([RC, 'ssh-ed25519'], ['ssh-ed25519', RC, 'rsa-sha2-512'], [EC, 'ssh-rsa', 'ssh-ed25519'], [RC, EC, 'ecdsa-sha2-nistp256', 'ssh-ed25519']):
+            hk_cases.append({'size': 3072, 'key': keys, 'ca': ca, 'banner': 'SSH-2.0-OpenSSH_8.4'})
 
     def do_hk(z, c):
         hk = {}
+        cab = {None: None, 'ecdsa': P.ecdsa_blob(), 'rsa1024': P.rsa_blob(1024, seed=7), 'rsa2048': P.rsa_blob(2048, seed=7), 'ed25519': P.ed25519_blob(seed=7)}.get(c.get('ca'))
         for t in c['key']:
             if t in fam: hk[t.encode()] = P.rsa_blob(c['size'])
             elif t == 'ssh-ed25519': hk[t.encode()] = P.ed25519_blob()
+            elif t == 'ssh-rsa-cert-v01@openssh.com' and cab: hk[t.encode()] = P.rsa_cert_blob(c['size'], cab)
+            elif t == 'ssh-ed25519-cert-v01@openssh.com' and cab: hk[t.encode()] = P.ed25519_cert_blob(cab)
+            elif t == 'ecdsa-sha2-nistp256' and c.get('ca'): hk[t.encode()] = P.ecdsa_blob()
         srv = P.new_ssh2_server(dict(banner=c['banner'].encode(), kex=['curve25519-sha256', 'diffie-hellman-group14-sha256'], key=c['key'], enc=['aes256-ctr'], mac=['hmac-sha2-512-etm@openssh.com'], hostkeys=hk))
         try:
             return z.run(['-j', '--skip-rate-test', '-t', '2', '127.0.0.1:%d' % srv.port], timeout=90)
         finally:
             srv.shutdown()
-    refs = sorted({(c['banner'], t, c['size'] if t in fam else 0) for c in hk_cases for t in c['key']})
-    ref_cases = [{'size': sz, 'key': [t], 'banner': ban} for (ban, t, sz) in refs]
+    refkey = lambda c, t: (c['banner'], t, c['size'] if (t in fam or 'rsa-cert' in t) else 0, c.get('ca') if '-cert-' in t else ('x' if (t.startswith('ecdsa') and c.get('ca')) else None))
+    refs = sorted({refkey(c, t) for c in hk_cases for t in c['key']}, key=repr)
+    ref_cases = [{'size': sz, 'key': [t], 'banner': ban, 'ca': ca} for (ban, t, sz, ca) in refs]
     with runner.Pool(8) as pool:
         hk_out = pool.map(do_hk, hk_cases)
         ref_out = pool.map(do_hk, ref_cases)
@@ -151,7 +161,7 @@ def run(ctx):
         if got is None:
             continue
         for t in c['key']:
-            k = (c['banner'], t, c['size'] if t in fam else 0)
+            k = refkey(c, t)
             if k not in ref_notes:
                 continue
             want = ref_notes[k]
